@@ -579,6 +579,9 @@ def _do_extract(raw, i, unitfile, repo_root, out, log, meta, twin=False):
                                  "expression": ticks[0] + f" … }};  ({lj - li + 1} lines)", "replaced_by": ticks[1]})
             log.count("outlined statement (assumed contract)")
             i += 1
+        elif dname == "nzip":
+            _nzip(item, ticks[0], _occ(words), log)
+            i += 1
         elif dname == "n1":
             _n1(item, ticks[0], _occ(words), log)
             i += 1
@@ -1069,3 +1072,34 @@ def _split(item, K, prefix, fname, log, ex):
         out_lines.extend(version(j))
     log.count(f"split: {fname} checked as {K}+1 queries (each per-arm assertion proved in exactly one copy)")
     return out_lines
+
+
+def _nzip(item, anchor, k, log):
+    """N12:  for (A, B) in std::iter::zip(X, Y) { BODY }   (X, Y slice iterators)  becomes
+         let zip_left = X.as_slice(); let zip_right = Y.as_slice(); let mut zip_index: usize = 0;
+         while zip_index < zip_left.len() && zip_index < zip_right.len() {
+             let A = &zip_left[zip_index]; let B = &zip_right[zip_index]; zip_index += 1; BODY }
+    i.e. std's definition of Zip over two slice iterators: pairs up to the shorter one, in order."""
+    (a, e), _ = item.find_anchor(anchor, k)
+    txt = item.joined()
+    mt = mask(txt)
+    b = item.repo_top_level(mt, "{", a)
+    hdr = txt[a:b]
+    mm = re.match(r"for\s*\(\s*(\w+)\s*,\s*(\w+)\s*\)\s*in\s+std::iter::zip\((.*)\)\s*$", hdr.strip(), re.S)
+    if not mm:
+        raise ExtractError(f"@nzip: header does not have the form `for (a, b) in std::iter::zip(X, Y)`: {hdr!r}")
+    va, vb, args = mm.group(1), mm.group(2), mm.group(3)
+    cut = find_top_level(mask(args), ",", 0)
+    if cut < 0:
+        raise ExtractError("@nzip: zip needs two arguments")
+    x, y = args[:cut].strip(), args[cut + 1:].strip()
+    if "\n" in hdr:
+        raise ExtractError("@nzip: multi-line loop header")
+    if re.search(r"\bcontinue\b|\bbreak\b", mt[b:match_bracket(mt, b)]):
+        pass  # (the increment is placed before BODY, so `continue` is fine)
+    item.replace_span(a, b + 1, "while zip_index < zip_left.len() && zip_index < zip_right.len() {")
+    la, _ = item._line_index(a)
+    item.insert_lines(la + 1, [Line(f"let {va} = &zip_left[zip_index]; let {vb} = &zip_right[zip_index]; zip_index += 1;", ("gen", "N12 zip bindings"))])
+    item.insert_lines(la, [Line(f"let zip_left = {x}.as_slice(); let zip_right = {y}.as_slice(); let mut zip_index: usize = 0;", ("gen", "N12 zip operands"))])
+    log.count("N12 zip of two slice iterators → indexed loop")
+    log.replaced.append({"item": item.ex.describe(), "class": "N12", "old": norm_ws(hdr), "new": "indexed while loop over the two slices (std's Zip: pairs up to the shorter one)", "count": 1})
